@@ -101,6 +101,7 @@ TraceInit ==
   /\ deleted = {}
   /\ initBody = InitCurBody
   /\ joined = {}
+  /\ scanning = {}
 
 (***************************************************************************)
 (* Event binding.                                                          *)
@@ -114,7 +115,11 @@ Stutter == UNCHANGED vars
 
 \* a resolution that the model does not act on (schema lookups, queries): still must return what
 \* the specification's storage state allows
-NoopResolve(a, name) == HandleFree(a) /\ CanResolve(name) /\ Stutter
+NoopResolve(a, name) == HandleFree(a) /\ Resolves(a, name) /\ scanning' = scanning \ {a}
+                        /\ UNCHANGED <<storageVars, clock, lockHolder, rlock, actorVars, faults, lease, ghostVars>>
+
+\* the pointer was read and found unusable; the directory scan (the Resolve event) comes later
+TrHintUnusable == IsEv("HintUnusable") /\ SeeHintUnusable(A)
 
 TrBegin == IsEv("Begin") /\ IF Role[A] = "committer" THEN Begin(A) ELSE Stutter
 
@@ -137,9 +142,9 @@ TrResolve ==
 \*  which arrives as a separate Resolve event)
 TrReadHintEtag ==
   /\ IsEv("ReadHintEtag")
-  /\ IF ~ev.ok THEN hint.cls = "missing" /\ Stutter
-     ELSE IF Name(ev.name) = NoName THEN hint.cls = "garbage" /\ Stutter
-     ELSE IF Name(ev.name) \notin DOMAIN metas THEN hint = [cls |-> "name", name |-> Name(ev.name)] /\ Stutter   \* dangling: a Resolve follows
+  /\ IF ~ev.ok THEN hint.cls = "missing" /\ ReadEtag(A)
+     ELSE IF Name(ev.name) = NoName THEN hint.cls = "garbage" /\ ReadEtag(A)
+     ELSE IF Name(ev.name) \notin DOMAIN metas THEN hint = [cls |-> "name", name |-> Name(ev.name)] /\ ReadEtag(A)   \* dangling: a Resolve follows
      ELSE ReadVersion(A, Name(ev.name))
 
 TrWriteMarker ==
@@ -229,7 +234,7 @@ TrNow ==
 
 TrTLock   == IsEv("TLock") /\ IF InCreate(A) THEN KTLock(A) ELSE TLock(A)
 TrTUnlock == IsEv("TUnlock") /\ IF InCreate(A) THEN KTUnlock(A) ELSE TUnlock(A)
-TrLockTry == IsEv("LockTry") /\ IF ev.ok THEN (IF InCreate(A) THEN KDLock(A) ELSE DLock(A)) ELSE (lockHolder \notin {"none", A} /\ Stutter)
+TrLockTry == IsEv("LockTry") /\ IF ev.ok THEN (IF InCreate(A) THEN KDLock(A) ELSE DLock(A)) ELSE ((Backend = "local" => lockHolder \notin {"none", A}) /\ Stutter)     \* (S3: an attempt is several requests; a failed one changes nothing)
 TrDUnlock == IsEv("DUnlock") /\ (IF InCreate(A) THEN KDUnlock(A) ELSE DUnlock(A))
              /\ (("wiped" \in DOMAIN ev /\ ev.wiped) <=> (lockHolder \notin {A, "none"} /\ lockHolder' = "none"))
 
@@ -292,7 +297,7 @@ TrRet ==
 
 TrDamage == IsEv("Damage") /\ DamageHint(ev.cls, Name(ev.name)) /\ UNCHANGED <<>>
 TrTick == IsEv("Tick") /\ clock' = ev.val /\ ev.val >= clock
-          /\ UNCHANGED <<storageVars, lockHolder, rlock, actorVars, faults, lease, ghostVars>>
+          /\ UNCHANGED <<storageVars, lockHolder, rlock, actorVars, faults, lease, ghostVars, scanning>>
 
 \* the independent reader's projection of the real storage must equal the model's storage
 TrObserve ==
@@ -307,7 +312,7 @@ TrObserve ==
 
 TraceNext ==
   \/ TrCommitStart \/ TrFinish \/ TrFault \/ TrReadHintEtag
-  \/ TrBegin \/ TrResolve \/ TrWriteMarker \/ TrWriteData \/ TrExists \/ TrRead \/ TrWriteMan \/ TrWriteList
+  \/ TrBegin \/ TrResolve \/ TrHintUnusable \/ TrWriteMarker \/ TrWriteData \/ TrExists \/ TrRead \/ TrWriteMan \/ TrWriteList
   \/ TrNow \/ TrTLock \/ TrTUnlock \/ TrLockTry \/ TrDUnlock \/ TrWriteMeta \/ TrFence \/ TrFlipHint
   \/ TrDiscardMeta \/ TrCrash \/ TrDamage \/ TrReadFailed \/ TrBackoff \/ TrHeartbeat \/ TrList \/ TrStat \/ TrDeleteMarker \/ TrDeleteFile \/ TrRet \/ TrTick \/ TrObserve
 
